@@ -126,22 +126,50 @@ theorem polygon_new_rejects_repeated_point (h3 : 3 ≤ rows.length) (hd : ¬ row
   rw [← rowEqb_three_iff] at heq
   rw [heq] at huv; exact Bool.noConfusion huv
 
-/-- the coded orthogonality test of a supplied normal, spelled out -/
-theorem chooseNormal_some_iff (computed nv n : V3 ℝ) :
-    chooseNormal computed (some nv) = .ok n ↔
-      n = V3.sdiv nv (V3.norm nv) ∧
-      |(|V3.dot computed (V3.sdiv nv (V3.norm nv))|) - 1| ≤ 1 / 100000000 + 1 / 100000 * |(1:ℝ)| := by
-  unfold chooseNormal isclose rtolDefault atolDefault
-  simp only [lit_one, Scalar.q, Scalar.ofNat_real, Scalar.abs_real, decide_eq_true_eq]
-  split_ifs with h
-  · constructor
-    · intro he; injection he with he; exact ⟨he.symm, by push_cast at h; exact h⟩
-    · rintro ⟨he, _⟩; rw [he]
-  · constructor
-    · intro he; cases he
-    · rintro ⟨_, h'⟩; exact absurd (by push_cast; exact h') h
+theorem unitize_eq_some (c : V3 ℝ) (h : V3.norm c ≠ 0) : unitize c = some (V3.sdiv c (V3.norm c)) := by
+  unfold unitize
+  rw [if_neg]
+  rw [eqb_iff, lit_zero]; exact h
 
-theorem chooseNormal_none (computed : V3 ℝ) : chooseNormal computed none = .ok computed := rfl
+theorem unitize_eq_none (c : V3 ℝ) (h : V3.norm c = 0) : unitize c = none := by
+  unfold unitize
+  rw [if_pos]
+  rw [eqb_iff, lit_zero]; exact h
+
+/-- the coded orthogonality test of a supplied normal, spelled out (`none` = the nan array of a degenerate
+first corner or of a zero normal: nan never passes `np.isclose`) -/
+theorem chooseNormal_some_iff (computed : Option (V3 ℝ)) (nv : V3 ℝ) (n : Option (V3 ℝ)) :
+    chooseNormal computed (some nv) = .ok n ↔
+      ∃ c, computed = some c ∧ V3.norm nv ≠ 0 ∧ n = some (V3.sdiv nv (V3.norm nv)) ∧
+      |(|V3.dot c (V3.sdiv nv (V3.norm nv))|) - 1| ≤ 1 / 100000000 + 1 / 100000 * |(1:ℝ)| := by
+  unfold chooseNormal
+  cases computed with
+  | none =>
+    constructor
+    · intro he; cases he
+    · rintro ⟨c, hc, _⟩; cases hc
+  | some c =>
+    dsimp only
+    by_cases hz : V3.norm nv = 0
+    · rw [unitize_eq_none nv hz]
+      constructor
+      · intro he; cases he
+      · rintro ⟨_, _, h, _⟩; exact absurd hz h
+    · rw [unitize_eq_some nv hz]
+      unfold isclose rtolDefault atolDefault
+      simp only [lit_one, Scalar.q, Scalar.ofNat_real, Scalar.abs_real, decide_eq_true_eq]
+      split_ifs with h
+      · constructor
+        · intro he; injection he with he
+          exact ⟨c, rfl, hz, he.symm, by push_cast at h; exact h⟩
+        · rintro ⟨c', hc', _, he, _⟩; rw [he]
+      · constructor
+        · intro he; cases he
+        · rintro ⟨c', hc', _, _, h'⟩
+          injection hc' with hc'; subst hc'
+          exact absurd (by push_cast; exact h') h
+
+theorem chooseNormal_none (computed : Option (V3 ℝ)) : chooseNormal computed none = .ok computed := rfl
 
 /-- the coded coplanarity loop, spelled out: every vertex within `1e-8 + planar_tolerance·|d|` of the plane
 `n·x = d` through vertex 0 -/
@@ -161,7 +189,7 @@ vertices form a cycle whose edges meet only where they must. The stored arrays a
 theorem polygon_new_accepts_iff (p : Poly ℝ) :
     Polygon.new ndim ncols rows normal ptol ts align = .ok p ↔
       ndim = 2 ∧ (ncols = 2 ∨ ncols = 3) ∧ 3 ≤ rows.length ∧ hasDup ncols rows = false ∧
-      chooseNormal (cornerNormal (rows.map (pad ncols))) normal = .ok p.normal ∧
+      chooseNormal (cornerNormal (rows.map (pad ncols))) normal = .ok (some p.normal) ∧
       coplanar p.normal (rows.map (pad ncols)) ptol = true ∧
       (ts = true → edgesOK ((align p.normal (rows.map (pad ncols))).map xy) = true) ∧
       p = ⟨rows.map (pad ncols), p.normal, .fresh, .fresh⟩ := by
@@ -192,7 +220,14 @@ theorem polygon_new_accepts_iff (p : Poly ℝ) :
     constructor
     · intro h; cases h
     · rintro ⟨_, _, _, _, h, _⟩; cases h
-  | ok n =>
+  | ok n' =>
+   cases n' with
+   | none =>
+    simp only
+    constructor
+    · intro h; cases h
+    · rintro ⟨_, _, _, _, h, _⟩; cases h
+   | some n =>
     simp only [isSimple_eq]
     by_cases h4 : coplanar n (rows.map (pad ncols)) ptol = true
     · by_cases h5 : ts = true ∧ edgesOK ((align n (rows.map (pad ncols))).map xy) = false
@@ -202,7 +237,7 @@ theorem polygon_new_accepts_iff (p : Poly ℝ) :
         constructor
         · intro h; cases h
         · rintro ⟨_, _, _, _, h, _, h', _⟩
-          injection h with h; subst h
+          injection h with h; injection h with h; subst h
           rw [h' trivial] at h5b; cases h5b
       · have h5' : (ts && !edgesOK ((align n (rows.map (pad ncols))).map xy)) = false := by
           cases ts <;> simp_all
@@ -214,13 +249,13 @@ theorem polygon_new_accepts_iff (p : Poly ℝ) :
           cases hts
           simpa using h5'
         · rintro ⟨_, _, _, _, h, _, _, hp⟩
-          injection h with h; subst h
+          injection h with h; injection h with h; subst h
           rw [hp]
     · simp only [h4, Bool.not_false, if_true]
       constructor
       · intro h; cases h
       · rintro ⟨_, _, _, _, h, h', _⟩
-        injection h with h; subst h
+        injection h with h; injection h with h; subst h
         exact absurd h' h4
 
 /-- an accepted polygon never holds the caller's arrays -/
@@ -264,7 +299,7 @@ theorem polygon_new_transport
     (p : Poly ℝ) (hacc : Polygon.new 2 ncols rows (some nv) ptol true align = .ok p)
     (hplanar : ∀ v ∈ p.vertices, ∀ w ∈ p.vertices, V3.dot p.normal v = V3.dot p.normal w)
     (hptol : 0 ≤ ptol)
-    (hcorner : chooseNormal (cornerNormal ((T rows).map (pad ncols))) (some nv) = .ok p.normal) :
+    (hcorner : chooseNormal (cornerNormal ((T rows).map (pad ncols))) (some nv) = .ok (some p.normal)) :
     Polygon.new 2 ncols (T rows) (some nv) ptol true align = .ok ⟨T p.vertices, p.normal, .fresh, .fresh⟩ := by
   obtain ⟨_, hc, h3, hd, _, _, hs, hp⟩ := (polygon_new_accepts_iff 2 ncols rows (some nv) ptol true align p).1 hacc
   have hv : p.vertices = rows.map (pad ncols) := by rw [hp]
@@ -305,7 +340,7 @@ theorem polygon_new_reverse (ncols : Nat) (rows : List (V3 ℝ)) (nv : V3 ℝ) (
     (p : Poly ℝ) (hacc : Polygon.new 2 ncols rows (some nv) ptol true align = .ok p)
     (hplanar : ∀ v ∈ p.vertices, ∀ w ∈ p.vertices, V3.dot p.normal v = V3.dot p.normal w)
     (hptol : 0 ≤ ptol)
-    (hcorner : chooseNormal (cornerNormal (rows.reverse.map (pad ncols))) (some nv) = .ok p.normal) :
+    (hcorner : chooseNormal (cornerNormal (rows.reverse.map (pad ncols))) (some nv) = .ok (some p.normal)) :
     Polygon.new 2 ncols rows.reverse (some nv) ptol true align
       = .ok ⟨p.vertices.reverse, p.normal, .fresh, .fresh⟩ :=
   polygon_new_transport (fun l => l.reverse) (fun l => List.reverse_perm l)
@@ -319,7 +354,7 @@ theorem polygon_new_shift (k : Nat) (ncols : Nat) (rows : List (V3 ℝ)) (nv : V
     (p : Poly ℝ) (hacc : Polygon.new 2 ncols rows (some nv) ptol true align = .ok p)
     (hplanar : ∀ v ∈ p.vertices, ∀ w ∈ p.vertices, V3.dot p.normal v = V3.dot p.normal w)
     (hptol : 0 ≤ ptol)
-    (hcorner : chooseNormal (cornerNormal ((rows.rotate k).map (pad ncols))) (some nv) = .ok p.normal) :
+    (hcorner : chooseNormal (cornerNormal ((rows.rotate k).map (pad ncols))) (some nv) = .ok (some p.normal)) :
     Polygon.new 2 ncols (rows.rotate k) (some nv) ptol true align
       = .ok ⟨p.vertices.rotate k, p.normal, .fresh, .fresh⟩ :=
   polygon_new_transport (fun l => l.rotate k) (fun l => List.rotate_perm l k)
@@ -354,11 +389,10 @@ theorem unit_of_sdiv (nv : V3 ℝ) (h : V3.norm nv ≠ 0) :
 theorem cornerNormal_dot_abs (verts : List (V3 ℝ)) (n : V3 ℝ) (hn : V3.dot n n = 1)
     (h01 : V3.dot n (verts.getD 0 V3.zero) = V3.dot n (verts.getD 1 V3.zero))
     (h21 : V3.dot n (verts.getD 2 V3.zero) = V3.dot n (verts.getD 1 V3.zero))
-    (hnd : V3.norm (V3.cross (verts.getD 2 V3.zero - verts.getD 1 V3.zero)
-      (verts.getD 0 V3.zero - verts.getD 1 V3.zero)) ≠ 0) :
-    |V3.dot (cornerNormal verts) n| = 1 := by
-  unfold cornerNormal
-  simp only
+    (hnd : V3.norm (cornerCross verts) ≠ 0) :
+    |V3.dot (V3.sdiv (cornerCross verts) (V3.norm (cornerCross verts))) n| = 1 := by
+  unfold cornerCross at *
+  simp only at *
   generalize verts.getD 0 V3.zero = v0 at *
   generalize verts.getD 1 V3.zero = v1 at *
   generalize verts.getD 2 V3.zero = v2 at *
@@ -385,11 +419,10 @@ theorem chooseNormal_of_planar (verts : List (V3 ℝ)) (nv : V3 ℝ) (hnv : V3.n
       = V3.dot (V3.sdiv nv (V3.norm nv)) (verts.getD 1 V3.zero))
     (h21 : V3.dot (V3.sdiv nv (V3.norm nv)) (verts.getD 2 V3.zero)
       = V3.dot (V3.sdiv nv (V3.norm nv)) (verts.getD 1 V3.zero))
-    (hnd : V3.norm (V3.cross (verts.getD 2 V3.zero - verts.getD 1 V3.zero)
-      (verts.getD 0 V3.zero - verts.getD 1 V3.zero)) ≠ 0) :
-    chooseNormal (cornerNormal verts) (some nv) = .ok (V3.sdiv nv (V3.norm nv)) := by
+    (hnd : V3.norm (cornerCross verts) ≠ 0) :
+    chooseNormal (cornerNormal verts) (some nv) = .ok (some (V3.sdiv nv (V3.norm nv))) := by
   rw [chooseNormal_some_iff]
-  refine ⟨rfl, ?_⟩
+  refine ⟨_, unitize_eq_some _ hnd, hnv, rfl, ?_⟩
   rw [cornerNormal_dot_abs verts _ (unit_of_sdiv nv hnv) h01 h21 hnd]
   norm_num
 
@@ -411,13 +444,14 @@ theorem polygon_new_transport_planar
     (p : Poly ℝ) (hacc : Polygon.new 2 ncols rows (some nv) ptol true align = .ok p)
     (hplanar : ∀ v ∈ p.vertices, ∀ w ∈ p.vertices, V3.dot p.normal v = V3.dot p.normal w)
     (hptol : 0 ≤ ptol) (hnv : V3.norm nv ≠ 0)
-    (hnd : V3.norm (V3.cross ((T p.vertices).getD 2 V3.zero - (T p.vertices).getD 1 V3.zero)
-      ((T p.vertices).getD 0 V3.zero - (T p.vertices).getD 1 V3.zero)) ≠ 0) :
+    (hnd : V3.norm (cornerCross (T p.vertices)) ≠ 0) :
     Polygon.new 2 ncols (T rows) (some nv) ptol true align = .ok ⟨T p.vertices, p.normal, .fresh, .fresh⟩ := by
   obtain ⟨_, _, h3, _, hn, _, _, hp⟩ := (polygon_new_accepts_iff 2 ncols rows (some nv) ptol true align p).1 hacc
   have hv : p.vertices = rows.map (pad ncols) := by rw [hp]
   have hTv : (T rows).map (pad ncols) = T p.vertices := by rw [hv, hmap]
-  have hnormal : p.normal = V3.sdiv nv (V3.norm nv) := ((chooseNormal_some_iff _ _ _).1 hn).1
+  have hnormal : p.normal = V3.sdiv nv (V3.norm nv) := by
+    obtain ⟨_, _, _, h, _⟩ := (chooseNormal_some_iff _ _ _).1 hn
+    injection h
   apply polygon_new_transport T hperm hmap hedges ncols rows nv ptol align R hal p hacc hplanar hptol
   rw [hTv, hnormal]
   have hlen : 3 ≤ (T p.vertices).length := by
@@ -437,8 +471,7 @@ theorem polygon_new_reverse_planar (ncols : Nat) (rows : List (V3 ℝ)) (nv : V3
     (p : Poly ℝ) (hacc : Polygon.new 2 ncols rows (some nv) ptol true align = .ok p)
     (hplanar : ∀ v ∈ p.vertices, ∀ w ∈ p.vertices, V3.dot p.normal v = V3.dot p.normal w)
     (hptol : 0 ≤ ptol) (hnv : V3.norm nv ≠ 0)
-    (hnd : V3.norm (V3.cross (p.vertices.reverse.getD 2 V3.zero - p.vertices.reverse.getD 1 V3.zero)
-      (p.vertices.reverse.getD 0 V3.zero - p.vertices.reverse.getD 1 V3.zero)) ≠ 0) :
+    (hnd : V3.norm (cornerCross p.vertices.reverse) ≠ 0) :
     Polygon.new 2 ncols rows.reverse (some nv) ptol true align
       = .ok ⟨p.vertices.reverse, p.normal, .fresh, .fresh⟩ :=
   polygon_new_transport_planar (fun l => l.reverse) (fun l => List.reverse_perm l)
@@ -452,13 +485,100 @@ theorem polygon_new_shift_planar (k : Nat) (ncols : Nat) (rows : List (V3 ℝ)) 
     (p : Poly ℝ) (hacc : Polygon.new 2 ncols rows (some nv) ptol true align = .ok p)
     (hplanar : ∀ v ∈ p.vertices, ∀ w ∈ p.vertices, V3.dot p.normal v = V3.dot p.normal w)
     (hptol : 0 ≤ ptol) (hnv : V3.norm nv ≠ 0)
-    (hnd : V3.norm (V3.cross ((p.vertices.rotate k).getD 2 V3.zero - (p.vertices.rotate k).getD 1 V3.zero)
-      ((p.vertices.rotate k).getD 0 V3.zero - (p.vertices.rotate k).getD 1 V3.zero)) ≠ 0) :
+    (hnd : V3.norm (cornerCross (p.vertices.rotate k)) ≠ 0) :
     Polygon.new 2 ncols (rows.rotate k) (some nv) ptol true align
       = .ok ⟨p.vertices.rotate k, p.normal, .fresh, .fresh⟩ :=
   polygon_new_transport_planar (fun l => l.rotate k) (fun l => List.rotate_perm l k)
     (fun f l => (List.map_rotate f l k).symm) (fun l => edgesOK_shift l k) ncols rows nv ptol align R hal p
     hacc hplanar hptol hnv hnd
+
+theorem map_pad_three (rows : List (V3 ℝ)) : rows.map (pad 3) = rows := by
+  have : (pad 3 : V3 ℝ → V3 ℝ) = id := by funext v; simp [pad]
+  rw [this, List.map_id]
+
+/-- for `u, w ⟂ n`, `|n| = 1`: `u × w = ((u × w)·n) n` -/
+theorem cross_eq_smul (n u w : V3 ℝ) (hn : V3.dot n n = 1) (hu : V3.dot n u = 0) (hw : V3.dot n w = 0) :
+    V3.cross u w = V3.smul (V3.dot (V3.cross u w) n) n := by
+  obtain ⟨nx, ny, nz⟩ := n; obtain ⟨ux, uy, uz⟩ := u; obtain ⟨wx, wy, wz⟩ := w
+  simp only [V3.dot, V3.cross, V3.smul] at *
+  congr 1
+  · linear_combination (-(uy * wz - uz * wy)) * hn + (ny * wz - nz * wy) * hu - (ny * uz - nz * uy) * hw
+  · linear_combination (-(uz * wx - ux * wz)) * hn + (nz * wx - nx * wz) * hu - (nz * ux - nx * uz) * hw
+  · linear_combination (-(ux * wy - uy * wx)) * hn + (nx * wy - ny * wx) * hu - (nx * uy - ny * ux) * hw
+
+theorem dot_smul_left (k : ℝ) (a v : V3 ℝ) : V3.dot (V3.smul k a) v = k * V3.dot a v := by
+  simp only [V3.dot, V3.smul]; ring
+
+/-- **`polygon_accepts_simple_planar_partial`** — the acceptance half of the property for `(N,3)` input without a
+supplied normal: ≥ 3 pairwise different vertices lying exactly in a plane `n·x = const`, a NON-DEGENERATE first
+corner and a cycle whose (aligned) edges meet only where they must ⇒ the constructor accepts, stores the
+vertices unchanged and `±n` as normal.  `_partial`: the non-degenerate first corner cannot be dropped
+(`polygon_accepts_every_simple_planar_fails`), and simplicity is assumed for the aligned vertices (the kabsch
+rotation is a parameter). -/
+theorem polygon_accepts_simple_planar_partial (rows : List (V3 ℝ)) (n : V3 ℝ) (ptol : ℝ)
+    (align : V3 ℝ → List (V3 ℝ) → List (V3 ℝ))
+    (hn : V3.dot n n = 1) (hplanar : ∀ v ∈ rows, ∀ w ∈ rows, V3.dot n v = V3.dot n w)
+    (h3 : 3 ≤ rows.length) (hd : rows.Nodup) (hnd : V3.norm (cornerCross rows) ≠ 0) (hptol : 0 ≤ ptol)
+    (hs : ∀ m, edgesOK ((align m rows).map xy) = true) :
+    ∃ p, Polygon.new 2 3 rows none ptol true align = .ok p ∧ p.vertices = rows ∧
+      (∀ v ∈ rows, ∀ w ∈ rows, V3.dot p.normal v = V3.dot p.normal w) := by
+  obtain ⟨m0, m1, m2⟩ := getD_mem_of_three rows V3.zero h3
+  set a := cornerCross rows with ha
+  have hsub : ∀ x y : V3 ℝ, V3.dot n (x - y) = V3.dot n x - V3.dot n y := by
+    intro x y; simp only [V3.dot, V3.sub_x, V3.sub_y, V3.sub_z]; ring
+  have hpar : a = V3.smul (V3.dot a n) n := by
+    rw [ha]; unfold cornerCross
+    apply cross_eq_smul n _ _ hn
+    · rw [hsub, hplanar _ m2 _ m1, sub_self]
+    · rw [hsub, hplanar _ m0 _ m1, sub_self]
+  set nn := V3.sdiv a (V3.norm a) with hnn
+  have hdot : ∀ v, V3.dot nn v = V3.dot a n / V3.norm a * V3.dot n v := by
+    intro v
+    rw [hnn, dot_sdiv, hpar, dot_smul_left]
+    rw [← hpar]; ring
+  have hconst : ∀ v ∈ rows, ∀ w ∈ rows, V3.dot nn v = V3.dot nn w := by
+    intro v hv w hw; rw [hdot, hdot, hplanar v hv w hw]
+  refine ⟨⟨rows, nn, .fresh, .fresh⟩, ?_, rfl, hconst⟩
+  rw [polygon_new_accepts_iff]
+  refine ⟨rfl, Or.inr rfl, h3, ?_, ?_, ?_, ?_, ?_⟩
+  · rw [hasDup_false_iff]
+    refine hd.imp ?_
+    intro u v huv
+    by_contra hc
+    rw [Bool.not_eq_false, rowEqb_three_iff] at hc
+    exact huv hc
+  · rw [map_pad_three, chooseNormal_none]
+    unfold cornerNormal
+    rw [unitize_eq_some _ hnd]
+  · rw [map_pad_three, coplanar_iff]
+    intro v hv
+    rw [hconst v hv _ m0, sub_self, abs_zero]
+    have : 0 ≤ ptol * |V3.dot nn (rows.getD 0 V3.zero)| := mul_nonneg hptol (abs_nonneg _)
+    linarith
+  · intro _; rw [map_pad_three]; exact hs _
+  · rw [map_pad_three]
+
+/-- **A degenerate first corner is rejected whatever the rest of the polygon is**: three collinear leading
+vertices give `cross = 0`, `0/0 = nan`, and nan passes no `np.isclose` — "Not all vertices are coplanar"
+(no normal supplied) or "normal is not orthogonal" (normal supplied). -/
+theorem polygon_new_rejects_degenerate_corner (ndim ncols : Nat) (rows : List (V3 ℝ)) (ptol : ℝ) (ts : Bool)
+    (align : V3 ℝ → List (V3 ℝ) → List (V3 ℝ))
+    (hs : ndim = 2 ∧ (ncols = 2 ∨ ncols = 3)) (h3 : 3 ≤ rows.length) (hd : hasDup ncols rows = false)
+    (hdeg : V3.norm (cornerCross (rows.map (pad ncols))) = 0) :
+    Polygon.new ndim ncols rows none ptol ts align = .error "ValueError:coplanar" ∧
+    ∀ nv, Polygon.new ndim ncols rows (some nv) ptol ts align = .error "ValueError:normal" := by
+  have hc : cornerNormal (rows.map (pad ncols)) = none := by
+    unfold cornerNormal; exact unitize_eq_none _ hdeg
+  constructor
+  · unfold Polygon.new
+    rw [if_neg (by omega), if_neg (by omega), if_neg (by rw [hd]; simp)]
+    simp only [hc, chooseNormal_none]
+  · intro nv
+    unfold Polygon.new
+    rw [if_neg (by omega), if_neg (by omega), if_neg (by rw [hd]; simp)]
+    simp only [hc]
+    unfold chooseNormal
+    simp only
 
 /-! ## 3. `ConvexPolygon.__init__` and `_reorder_verts` -/
 
@@ -724,8 +844,9 @@ example : segMeet (⟨0,0⟩ : P2 ℝ) ⟨1,0⟩ ⟨1,1⟩ ⟨0,1⟩ = false := 
 
 theorem pad_three (v : V3 ℝ) : pad 3 v = v := by simp [pad]
 
-theorem exSquare3_normal : cornerNormal (exSquare3.map (pad 3)) = ⟨0,0,1⟩ := by
-  simp [cornerNormal, exSquare3, pad, V3.cross, V3.sdiv, V3.norm, V3.normSq, V3.dot]
+theorem exSquare3_normal : cornerNormal (exSquare3.map (pad 3)) = some ⟨0,0,1⟩ := by
+  simp [cornerNormal, cornerCross, unitize, Scalar.eqb, exSquare3, pad, V3.cross, V3.sdiv, V3.norm, V3.normSq,
+    V3.dot]
 
 /-- `polygon_new_accepts_iff` on the unit square in the plane z = 0 (identity alignment): accepted, normal +z -/
 example : Polygon.new 2 3 exSquare3 none (1/100000) true (fun _ vs => vs)
@@ -785,5 +906,52 @@ example : (reorder ([⟨1,0,0⟩, ⟨2,0,0⟩] : List (V3 ℝ)) ["v0", "v1"]).he
   simp only [V3.norm, V3.normSq, V3.dot, Scalar.sqrt_real]
   apply Real.sqrt_le_sqrt
   norm_num
+
+/-! ### the acceptance half fails at a degenerate first corner -/
+
+/-- a 2 × 1 rectangle with an extra vertex in the middle of its bottom edge, listed from the bottom-left corner:
+the first three vertices are collinear -/
+def exStraight3 : List (V3 ℝ) := [⟨0,0,0⟩,⟨1,0,0⟩,⟨2,0,0⟩,⟨2,1,0⟩,⟨0,1,0⟩]
+
+theorem exStraight3_simple : Spec.simple (exStraight3.map xy) = true := by unfold exStraight3; c15_eval
+
+theorem exStraight3_rejected :
+    Polygon.new 2 3 exStraight3 none (1/100000) true (fun _ vs => vs) = .error "ValueError:coplanar" := by
+  refine (polygon_new_rejects_degenerate_corner 2 3 exStraight3 _ _ _ ⟨rfl, Or.inr rfl⟩ (by simp [exStraight3])
+    ?_ ?_).1
+  · simp [exStraight3, hasDup, rowEqb, Scalar.eqb]
+  · simp [exStraight3, cornerCross, pad, V3.cross, V3.norm, V3.normSq, V3.dot]
+
+/-- **`polygon_accepts_every_simple_planar_fails`**: "accepts every simple planar polygon" is FALSE for the code
+as it is — this simple polygon in the plane z = 0 is rejected ("Not all vertices are coplanar") because its
+first three vertices are collinear (`Polygon([[0,0],[1,0],[2,0],[2,1],[0,1]])` raises in /repo; the same cycle
+started at any other vertex is accepted). -/
+theorem polygon_accepts_every_simple_planar_fails :
+    ¬ (∀ rows : List (V3 ℝ), Spec.simple (rows.map xy) = true → (∀ v ∈ rows, v.z = 0) →
+        ∃ p, Polygon.new 2 3 rows none (1/100000) true (fun _ vs => vs) = .ok p) := by
+  intro h
+  obtain ⟨p, hp⟩ := h exStraight3 exStraight3_simple (by simp [exStraight3])
+  rw [exStraight3_rejected] at hp
+  cases hp
+
+/-- … whereas the same cycle started one vertex earlier satisfies the hypotheses of
+`polygon_accepts_simple_planar_partial` and is accepted -/
+def exStraight3' : List (V3 ℝ) := [⟨0,1,0⟩,⟨0,0,0⟩,⟨1,0,0⟩,⟨2,0,0⟩,⟨2,1,0⟩]
+
+example : exStraight3.rotate 4 = exStraight3' := by simp [exStraight3, exStraight3', List.rotate]
+
+example : ∃ p, Polygon.new 2 3 exStraight3' none (1/100000) true (fun _ vs => vs) = .ok p ∧
+    p.vertices = exStraight3' ∧
+    (∀ v ∈ exStraight3', ∀ w ∈ exStraight3', V3.dot p.normal v = V3.dot p.normal w) := by
+  unfold exStraight3'
+  apply polygon_accepts_simple_planar_partial _ ⟨0,0,1⟩ _ _ (by simp [V3.dot])
+  · intro v hv w hw
+    simp only [List.mem_cons, List.not_mem_nil, or_false] at hv hw
+    rcases hv with rfl | rfl | rfl | rfl | rfl <;> rcases hw with rfl | rfl | rfl | rfl | rfl <;> simp [V3.dot]
+  · simp
+  · simp
+  · simp [cornerCross, V3.cross, V3.norm, V3.normSq, V3.dot]
+  · norm_num
+  · intro m; c15_eval
 
 end
